@@ -75,3 +75,33 @@ Theorem c15_snapshot_function_is_source :
      SReturn [GVar "res"]].
 Proof. exact DecSnapshot.snapshot_function. Qed.
 Print Assumptions c15_snapshot_function_is_source.
+
+(* no use after release: visitNodes holds a reference of its own on the item from before the visitor is called until after
+   the last use of the item's key (a visitor may run visits that drop the node's reference); repaired defect 367e600 *)
+From GK Require Import DecRecycle.
+Theorem c15_visit_holds_item_while_used_is_source :
+  call_list "Store.visitNodes" =
+    ["n.read"; "n.isEmpty";
+     "func(evictNode *node) {  if i := evictNode.Evict(); i != nil {   o.ItemDecRef(t, i)  } }";
+     "nItemLoc.read"; "panic"; "fmt.Sprintf"; "choiceFunc"; "t.compare";
+     "o.visitNodes"; "n.read"; "nItemLoc.read"; "o.ItemAddRef"; "visitor";
+     "o.ItemDecRef"; "n.read"; "choiceFunc"; "t.compare"; "o.ItemDecRef";
+     "o.visitNodes"] /\
+  count_occ string_dec (call_list "Store.visitNodes") "o.ItemAddRef" = 1%nat.
+Proof. exact DecRecycle.visit_holds_item_while_used. Qed.
+Print Assumptions c15_visit_holds_item_while_used_is_source.
+
+(* the item a visit hands to its visitor (repaired defect 367e600): with the visit's own reference (hand-out ... give-back
+   around the visitor) no sequence of other events -- evictions by nested visits, freed nodes, reloads, other callers --
+   brings its count to zero; as found, one eviction of its node was enough *)
+From GK Require Import RefcountVisit.
+Theorem c15_visitor_item_stays_positive : forall s n i s1,
+  reachable s -> owner s !! n = Some i -> step s (EvHandOut n) = Some s1 ->
+  forall es s2, run s1 es = Some s2 -> Forall (not_giveback i) es -> (out s2 i > 0)%nat /\ (1 <= cnt s2 i)%Z.
+Proof. exact RefcountVisit.held_item_stays_positive. Qed.
+Print Assumptions c15_visitor_item_stays_positive.
+
+Theorem c15_visitor_item_without_reference_refuted :
+  exists s n i s', reachable s /\ owner s !! n = Some i /\ cnt s i = 1%Z /\ step s (EvEvict n) = Some s' /\ cnt s' i = 0%Z.
+Proof. exact RefcountVisit.unheld_item_released_under_visitor. Qed.
+Print Assumptions c15_visitor_item_without_reference_refuted.
